@@ -143,6 +143,8 @@ def gen_bridge(rng, n, mode="bridge"):
              "r1": r1, "w1": rand_writes(rng, 4, faulty and rng.random() < 0.7)}
         if mode == "bridge":
             c["sched"] = sched_for(rng, r0, r1)
+            if limit == 0 and rng.random() < 0.25:
+                c["sched"].insert(rng.randrange(0, len(c["sched"]) // 2 + 1), 2)   # the PARENT context is cancelled at this point
         else:
             c["end0"] = rng.choice(["hold", "hold", "eof"])
             c["end1"] = rng.choice(["hold", "hold", "eof"])
@@ -219,12 +221,25 @@ def gen_end_failure(rng, n):
     return out
 
 
+def gen_parent_cancel(rng, n):
+    """the context the bridge was created under is cancelled (shutdown starts) while the tunnel is live; afterwards one end closes
+    or fails: closure, Start's return and forgetting must still happen (free mode; reattach histories get a `pcancel` op)"""
+    out = []
+    for k in range(n):
+        c = {"mode": "free", "limit": 0 if k % 4 else 4096, "pcancel": 1 if k % 5 else 2, "late_end": k % 2, "late_e": [0, 3, 4, 6, 7][k % 5],
+             "wrap0": False, "wrap1": False, "w0": [], "w1": [], "end0": "hold", "end1": "hold", "sched": [],
+             "r0": [dict(rand_data(rng, rng.choice([1, 9, 300])), e=0) for _ in range(rng.randrange(0, 3))],
+             "r1": [dict(rand_data(rng, rng.choice([1, 9, 300])), e=0) for _ in range(rng.randrange(0, 3))]}
+        out.append(c)
+    return out
+
+
 def gen_reqresp(rng, n):
     """relay over transports with / without half-close: one direction ends early (EOF), the other still has N KB to deliver"""
     out = []
     for k in range(n):
         c = {"mode": "relay", "relay": "bidir", "flow": "reqresp", "fail_end": k % 2, "nocap_a": bool(k & 2), "nocap_b": bool(k & 4),
-             "resp_kb": rng.choice([1, 31, 68, 130])}
+             "resp_kb": rng.choice([1, 31, 68, 130]), "delay_ms": rng.choice([0, 10000, 60000])}   # virtual pause before the 2nd half
         c["r0" if k % 2 == 0 else "r1"] = [dict(rand_data(rng, rng.choice([3, 40, 500])), e=0)]
         out.append(c)
     return out
@@ -265,6 +280,8 @@ def gen_reattach(rng, n):
             pass
         h.append({"op": "closeold", "e": 2})
         sends(0, 2)
+        if rng.random() < 0.3:
+            h.insert(rng.randrange(1, len(h) + 1), {"op": "pcancel"})     # shutdown starts somewhere in the history
         if rng.random() < 0.4:
             h.append({"op": "closerace"})       # Bridge.Close parked in the old source conn's Close() while the source re-attaches
         else:
@@ -332,7 +349,7 @@ def case_value(c, o, sliced, bounded=False):
                 list(c["sched"]) + tail, obs]
     if c["mode"] == "reattach":
         rs, sched = [], []
-        for op in c["hist"]:
+        for op in c["hist"][: o.get("ops_done", len(c["hist"]))]:      # the tunnel may end early once its parent context is cancelled
             if op["op"] == "tsend" and op.get("d"):
                 rs.append([hb(op["d"]), 0])
                 sched += [0, 0]
@@ -357,6 +374,8 @@ def classify(c, o, sliced):
         return KNOWN_KEY
     if key == "reattach":
         return "reattach-bytes-to-stale-end" if "did not reach the attached source end" in (o.get("prop_msg") or "") else "reattach-tunnel-broken"
+    if key == "deadline":
+        return "deadline-set-on-live-direction"
     if key == "closed-early":
         return "relay-closed-under-live-direction"
     if key == "stalled":
@@ -434,6 +453,9 @@ def run(ctx, only_cases=None):
         cases += gen_adapter(rng, 48 if thorough else 12)
         cases += gen_end_failure(rng, 112 if thorough else 28)
         cases += gen_reqresp(rng, 32 if thorough else 8)
+        cases += gen_parent_cancel(rng, 40 if thorough else 10)
+        if thorough:   # real loopback TCP, real 6.5 s pause of the remaining direction after the first one half-closed
+            cases.append({"mode": "relay", "relay": "bidir", "flow": "reqresp", "fail_end": 0, "tcp": True, "delay_ms": 6500})
     # the start race can kill the harness process (nil dereference inside a goroutine of Bridge.Start): own process
     race_cases = [c for c in cases if c["mode"] == "startrace"]
     cases = [c for c in cases if c["mode"] != "startrace"]
@@ -517,7 +539,7 @@ def run(ctx, only_cases=None):
             "stats_backend_stalled": 0, "final_report_parked": 0, "forget_required_while_parked": 0,
             "write_parked_at_teardown": 0, "source_reattach_histories": 0, "reattaches": 0,
             "adapter_wrapped_end": 0, "one_sided_traffic_both_ends_open": 0, "end_fails_non_eof": 0, "half_close_relay": 0,
-            "permanent_timeout_failure": 0, "close_races_reattach": 0, "relay_end_without_half_close": 0, "early_eof_other_direction_live": 0}
+            "parent_context_cancelled": 0, "relay_pause_longer_than_any_deadline": 0, "permanent_timeout_failure": 0, "close_races_reattach": 0, "relay_end_without_half_close": 0, "early_eof_other_direction_live": 0}
     for c, o in zip(cases, outs):
         h = hashlib.sha256(json.dumps(c, sort_keys=True).encode()).hexdigest()
         distinct.add(h)
@@ -525,6 +547,8 @@ def run(ctx, only_cases=None):
         dist["adapter_wrapped_end"] += bool(c.get("wrap0") or c.get("wrap1"))
         dist["one_sided_traffic_both_ends_open"] += m == "free" and bool(c.get("deliver_ms")) and (not c.get("r0") or not c.get("r1"))
         dist["end_fails_non_eof"] += (m == "relay" and c.get("fail_e", 0) >= 3) or (m in ("free", "bridge", "copy") and any(r["e"] >= 3 for r in c.get("r0", []) + c.get("r1", [])))
+        dist["parent_context_cancelled"] += bool(c.get("pcancel")) or (m == "bridge" and 2 in c.get("sched", [])) or any(op["op"] == "pcancel" for op in c.get("hist", []))
+        dist["relay_pause_longer_than_any_deadline"] += m == "relay" and c.get("delay_ms", 0) >= 6000
         dist["permanent_timeout_failure"] += (m == "relay" and c.get("fail_e") == 4) or any(r["e"] == 4 for r in c.get("r0", []) + c.get("r1", []))
         dist["close_races_reattach"] += m == "reattach" and any(op["op"] == "closerace" for op in c.get("hist", []))
         if m == "relay":
@@ -595,7 +619,10 @@ def run(ctx, only_cases=None):
                 "(Timeout, Temporary) pair, io.EOF, io.ErrUnexpectedEOF, net.ErrClosed, plain errors, before any byte and after some, both ends; a failed "
                 "connection keeps failing. closerace: Bridge.Close parked inside the old source connection's Close() while SetSourceConnection runs. "
                 "reqresp relay cases: ends with / without CloseWrite, the requester EOFs early, the responder then sends 1..130 KB: nothing may be closed "
-                "before both directions ended and every byte must arrive.",
+                "before both directions ended and every byte must arrive; the fakes honour read deadlines against a virtual clock that is advanced 10-60 s "
+                "before the second half of the answer, and any deadline the relay sets on a live connection is a failure (thorough: the same over loopback "
+                "TCP with a real 6.5 s pause). parent cancel: the context the bridge was created under is cancelled before / between / after the end "
+                "events (free mode, gated schedules entry 2, reattach histories); closure, Start's return and forgetting are still required.",
         "samples": [{"case": brief(cases[i]), "observed": {k: v for k, v in outs[i].items() if k in ("prop_ok", "len0", "len1", "cnt0", "cnt1", "closer", "order", "life", "nrd", "nwr", "total")}} for i in pick],
         "model_vs_impl_cases": len(terms), "model_vs_impl_mismatches": len(mism), "impl_property_failures": nfail,
         "input_distribution": dist, "generated_file_changed": gen_changed,
